@@ -14,6 +14,7 @@ import Biogo.Model.Alphabet
 import Biogo.Generated.Alphabets
 import Biogo.Model.ContWorld
 import Biogo.Proofs.Containers
+import Biogo.Proofs.ContFrame
 
 namespace Biogo.Properties.C05
 open Biogo.Alphabet Biogo.Containers Biogo.Go
@@ -136,5 +137,65 @@ theorem reverse_involutive_multi (h : Cells) (m : Multi) (hwf : RowsWF h m.rows)
     All2 (fun r r2 => r2.letters m2.1 = r.letters h ∧ r2.start = r.start ∧ r2.«end» = r.«end»)
       m.rows m2.2.rows :=
   Multi.reverse_twice h m hwf hr
+
+/-! ### Clone is deep (heap model) -/
+
+/-- every history starts separated: the rows of the initial object own pairwise different
+    backing arrays (the constructors copy the caller's letters) -/
+theorem initial_object_separated (cx : Ctx) (kind : String) (strand : Int) (rows : List SeqSpec)
+    (hkind : kind = "multi" ∨ kind = "set" ∨ ((kind = "lin" ∨ kind = "qlin") ∧ rows ≠ [])) :
+    Separated (initWorld cx kind strand rows) :=
+  initWorld_separated cx kind strand rows hkind
+
+/-- **frame**: in a world of linear sequences, multis and sets, whatever operations of C05
+    (`RevComp`, `Reverse`, `Clone`, `Set`, row `RevComp`/`Reverse`) are applied to *other*
+    objects, an object stays the same and is observed the same: `At(i)` over every row's
+    `[Start,End)`, `Start`, `End`, strand of every row. -/
+theorem untouched_object_unchanged (cx : Ctx) (w : World) (hs : Separated w) (ops : List Op)
+    (hops : ∀ op ∈ ops, op.isC05 = true) (j : Nat) (oj : Obj) (hj : w.objs[j]? = some oj)
+    (hnot : ∀ op ∈ ops, op.target ≠ some j) :
+    (runOps cx w ops).objs[j]? = some oj ∧ oj.rowsV (runOps cx w ops).cells = oj.rowsV w.cells :=
+  let r := Biogo.Containers.untouched_object_unchanged cx ops w hs hops j oj hj hnot
+  ⟨r.1, r.2.1⟩
+
+/-- **clone_deep.** "Clone returns an independent deep copy: no later mutation of either copy
+    is visible through the other."  Let object `k` be cloned (the copy is object
+    `n = w.objs.length`).  (a) The copy is observed equal to the original.  (b) After any
+    sequence of C05 operations none of which is applied to the original, the original is
+    observed as before — in particular whatever is written through the copy.  (c) After any
+    sequence none of which is applied to the copy, the copy is observed as the original was
+    when it was cloned — whatever is written through the original. -/
+theorem clone_deep (cx : Ctx) (w : World) (hs : Separated w) (k : Nat) (o : Obj)
+    (hk : w.objs[k]? = some o) (hclonable : ∀ m, o ≠ .set m)
+    (ops : List Op) (hops : ∀ op ∈ ops, op.isC05 = true) :
+    let w1 := (apply cx w (.clone k)).1
+    ∃ c, w1.objs[w.objs.length]? = some c ∧ c.rowsV w1.cells = o.rowsV w.cells ∧
+      ((∀ op ∈ ops, op.target ≠ some k) →
+        (runOps cx w1 ops).objs[k]? = some o ∧ o.rowsV (runOps cx w1 ops).cells = o.rowsV w.cells) ∧
+      ((∀ op ∈ ops, op.target ≠ some w.objs.length) →
+        (runOps cx w1 ops).objs[w.objs.length]? = some c ∧
+        c.rowsV (runOps cx w1 ops).cells = o.rowsV w.cells) := by
+  intro w1
+  obtain ⟨c, hc, hobs⟩ := clone_observed_equal cx w hs k o hk hclonable
+  obtain ⟨hsep1, hoth1⟩ := step_clone cx w hs k
+  obtain ⟨hk1, hko⟩ := hoth1 k o (by simp [Op.target]) hk
+  refine ⟨c, hc, hobs, ?_, ?_⟩
+  · intro hnot
+    have r := Biogo.Containers.untouched_object_unchanged cx ops w1 hsep1 hops k o hk1 hnot
+    exact ⟨r.1, r.2.1.trans hko⟩
+  · intro hnot
+    have r := Biogo.Containers.untouched_object_unchanged cx ops w1 hsep1 hops w.objs.length c hc hnot
+    exact ⟨r.1, r.2.1.trans hobs⟩
+
+-- non-vacuity: a ragged two-row multi (rows [0,5) ACGTA and [2,8) GGTTCC) is separated, can be
+-- cloned, and RevComp of the clone (object 1) mirrors its rows while the original keeps its own
+example :
+    let cx : Ctx := { comp := fun l => l, gap := 45, amb := 110,
+                      alpha := ⟨[], 0, fun _ => false, fun _ => -1, 45, 110, false⟩, grow := growExact }
+    let rows : List SeqSpec := [⟨false, 0, 1, 0, [⟨65, 0⟩, ⟨67, 0⟩, ⟨71, 0⟩, ⟨84, 0⟩, ⟨65, 0⟩]⟩,
+                               ⟨false, 2, 1, 1, [⟨71, 0⟩, ⟨71, 0⟩, ⟨84, 0⟩, ⟨84, 0⟩, ⟨67, 0⟩, ⟨67, 0⟩]⟩]
+    let w := runOps cx (initWorld cx "multi" 1 rows) [.clone 0, .revComp 1]
+    ((w.objs.map fun o => (o.rowsV w.cells).map fun r => (r.start, r.«end»))
+      = [[(0, 5), (2, 8)], [(3, 8), (0, 6)]]) := by decide
 
 end Biogo.Properties.C05
